@@ -144,7 +144,7 @@ fault_parse(const char *s, fault_t *f)
 
 /* --model synth-semi|synth-ms|synth-mixw: parameter files written by the harness (synth_model.h), so that the loaders
  * the bundled models never select (s2_semi_mgau, ms_mgau/ms_senone, ptm_mgau from mixture_weights) meet damaged files */
-static int SYNTH_MS, SYNTH;
+static int SYNTH_MS, SYNTH, HAS_CHKSUM;
 static void
 synth_cleanup(void)
 {
@@ -249,7 +249,8 @@ run_fault(const fault_t *f)
     if (d) {
         int rc = probe(d, got, sizeof got);
         accepted = 1;
-        if (rc == 0 && strcmp(got, INTACT) != 0 && !IS_FEATPARAMS) {
+        /* only a file that carries a checksum can be expected to notice damaged DATA; the senone dump has none */
+        if (rc == 0 && strcmp(got, INTACT) != 0 && !IS_FEATPARAMS && HAS_CHKSUM) {
             mc_viol("C17/damaged-file-accepted-and-changes-results", cd, "initialisation succeeded with the damaged file and the probe decodes to %s instead of %s", got,
                     INTACT);
         }
@@ -373,6 +374,12 @@ main(int argc, char **argv)
     if (fread(ORIG, 1, ORIGLEN, fp) != ORIGLEN)
         return 2;
     fclose(fp);
+    {
+        size_t k;
+        for (k = 0; k + 7 <= ORIGLEN && k < 4096; k++)
+            if (memcmp(ORIG + k, "chksum0", 7) == 0)
+                HAS_CHKSUM = 1;
+    }
     if (IS_FEATPARAMS)
         write_featparams(ORIG, ORIGLEN);
     fp = fopen(REPOROOT "/tests/data/goforward.raw", "rb");
